@@ -119,7 +119,7 @@ def specCreate (s : SRepo) (nsArg : Option Name) (inst : Inst) : SRepo × Out :=
     | some c =>
       if !(inst.props.all (validProp e.classes c)) then (s, errParam)
       else
-        let i : Inst := { cls := inst.cls, props := adjustNames c inst.props }
+        let i : Inst := { cls := inst.cls, props := adjustNames c inst.props, quals := inst.quals }
         if c.isAssoc && !((i.props.filter isRef).all (fun p => sEndpointOk s p.val)) then (s, errParam)
         else
           let tg := targets c.isAssoc i.props ns
@@ -174,7 +174,7 @@ def specModify (s : SRepo) (path : Path) (inst : Inst) (pl : Option (List Name))
             let ps := adjustNames c (reduceByPl c inst.props pl)
             if c.isAssoc && !(ps.all (sRefOk s old.props)) then (s, errParam)
             else
-              let ni : Inst := { cls := old.cls, props := updateProps old.props ps }
+              let ni : Inst := { cls := old.cls, props := updateProps old.props ps, quals := old.quals }
               let tg := targets c.isAssoc ni.props ns
               if !(tg.all (sClassIn s ni.cls)) then (s, errClass)
               else if !(tg.all (fun n => sExists s n (keyIn path n))) then (s, errNotFound)
@@ -192,7 +192,7 @@ def specDelete (s : SRepo) (path : Path) : SRepo × Out :=
       | none => (s, errNotFound)
       | some old => (sDeleteAll s path (targets c.isAssoc old.props ns), .unit)
 
-def specGet (s : SRepo) (path : Path) (pl : Option (List Name)) : SRepo × Out :=
+def specGet (s : SRepo) (path : Path) (pl : Option (List Name)) (_o : RetOpts := {}) : SRepo × Out :=
   let ns := path.ns.getD s.dflt
   match sFindNs s ns with
   | none => (s, errNs)
@@ -201,14 +201,14 @@ def specGet (s : SRepo) (path : Path) (pl : Option (List Name)) : SRepo × Out :
     else
       match sLookup e.map (keyIn path ns) with
       | none => (s, errNotFound)
-      | some i => (s, .inst { cls := i.cls, path := keyIn path ns, props := filterProps pl i.props })
+      | some i => (s, .inst { cls := i.cls, path := keyIn path ns, props := (retrieveSimple pl i).1, quals := false })
 
 /-- the entries of the map whose creation class is `cls` or a subclass -/
 def sSelect (e : SNs) (cls : Name) : List (Path × Inst) :=
   e.map.filter (fun x => descends e.classes e.classes.length x.1.cls cls)
 
 def specEnumInsts (s : SRepo) (nsArg : Option Name) (cls : Name) (di : Option Bool)
-    (pl : Option (List Name)) : SRepo × Out :=
+    (pl : Option (List Name)) (_o : RetOpts := {}) : SRepo × Out :=
   let ns := nsArg.getD s.dflt
   match sFindNs s ns with
   | none => (s, errNs)
@@ -217,7 +217,8 @@ def specEnumInsts (s : SRepo) (nsArg : Option Name) (cls : Name) (di : Option Bo
     | none => (s, errClass)
     | some c =>
       (s, .insts ((sSelect e cls).map (fun x =>
-        { cls := x.2.cls, path := { x.1 with ns := some (lower ns) }, props := filterProps (enumPl c di pl) x.2.props })))
+        { cls := x.2.cls, path := { x.1 with ns := some (lower ns) }, props := (retrieveSimple (enumPl c di pl) x.2).1,
+          quals := false })))
 
 def specEnumNames (s : SRepo) (nsArg : Option Name) (cls : Name) : SRepo × Out :=
   let ns := nsArg.getD s.dflt
@@ -232,8 +233,8 @@ def sstep (s : SRepo) (op : Op) : SRepo × Out :=
   | .create ns i => specCreate s ns i
   | .modify p i pl => specModify s p i pl
   | .delete p => specDelete s p
-  | .get p pl => specGet s p pl
-  | .enumInsts ns c di pl => specEnumInsts s ns c di pl
+  | .get p pl o => specGet s p pl o
+  | .enumInsts ns c di pl o => specEnumInsts s ns c di pl o
   | .enumNames ns c => specEnumNames s ns c
 
 def run (s : SRepo) : List Op → SRepo × List Out
